@@ -49,7 +49,8 @@ Record ans := { o_err : bool;        (* the routine called in this step raised m
                 o_best : bool;       (* secular-ga: s->best_approx after the packet *)
                 o_regen1 : bool;     (* secular-ga: regeneration inside the best_approx branch succeeded *)
                 o_regen : bool;      (* secular-ga: regeneration at the end of the iteration succeeded *)
-                o_stop2 : bool }.    (* secular-ga: check_stop in the while condition *)
+                o_stop2 : bool;      (* secular-ga: check_stop in the while condition *)
+                o_round : nat }.     (* mps_mp_set_prec: s->mpwp = (prec / min_prec + 1) * min_prec, i.e. prec + o_round *)
 
 (* ------------------------------------------------------------------ generic oracle machine *)
 Section Machine.
@@ -170,7 +171,8 @@ Definition ustep (c : caps) (g : cfg) (a : ans) (s : ust) : ust :=
   | U_mp_head =>
       if negb (computed s) && (mpwp s <? mpwp_max c) then
         let m2 := 2 * mpwp s in
-        let s1 := if mpwp_max c <? m2 then set_over_max (set_mpwp s (mpwp_max c)) true else set_mpwp s m2 in
+        (* mps_mp_set_prec rounds the requested precision up to the next multiple of the GMP granularity *)
+        let s1 := if mpwp_max c <? m2 then set_over_max (set_mpwp s (mpwp_max c + o_round a)) true else set_mpwp s (m2 + o_round a) in
         if o_pre a then set_pc s1 (U_phase_end SM) else set_pc s1 (U_head SM (max_pack c))
       else set_pc s U_exit_sub
   | U_exit_sub =>
@@ -256,7 +258,10 @@ Definition sstep (c : caps) (g : cfg) (a : ans) (s : sst) : sst :=
           (* both outcomes of the last regeneration reset skip_check_stop *)
           if o_stop2 a then sset_pc s3 S_cleanup else sset_pc s3 S_loop
   | S_cleanup =>
-      if is_approx (cgoal g) then sset_pc s (S_improve (wp_min g)) else sset_pc s S_return
+      (* no errors here (they return directly).  if (p->prec > 0) mps_validate_inclusions: switches to the mp phase when
+         the loop ended before reaching it *)
+      let s1 := if negb (in_prec g =? 0) && negb (sphase_mp s) then sraise_prec s else s in
+      if is_approx (cgoal g) then sset_pc s1 (S_improve (wp_min g)) else sset_pc s1 S_return
   | S_improve cur =>
       if o_allapprox a then sset_pc s S_return
       else let c2 := 2 * cur in
@@ -270,5 +275,5 @@ Definition sterminal (s : sst) : bool := match spc_ s with S_return => true | _ 
 (* constant oracles used as witnesses *)
 Definition ans0 : ans :=
   {| o_err := false; o_whichd := false; o_more := false; o_pk := PkNoExcep; o_dafter := false; o_stop := true; o_pre := false;
-     o_incl := false; o_allapprox := false; o_best := true; o_regen1 := true; o_regen := true; o_stop2 := false |}.
+     o_incl := false; o_allapprox := false; o_best := true; o_regen1 := true; o_regen := true; o_stop2 := false; o_round := 0 |}.
 Definition adversary : nat -> ans := fun _ => ans0.
